@@ -11,6 +11,7 @@
   `bases l` = the gene's coordinates in transcription order (Spec/ProtDna.lean); `sliceL x a b = x[a:b]`.
 -/
 import ASV.Proofs.ProtDna
+import ASV.Proofs.ProtDnaRebuild
 namespace ASV.C09
 open ASV ASV.ProtDna
 
@@ -69,7 +70,7 @@ theorem prepeptide_partition (l : Loc) (hwf : geneWF l = true) (ld tl : Nat) (h 
       bases c = sliceL (bases l) (3 * ld) (3 * ((l.len / 3).toNat - tl)) ∧
       optBases b = sliceL (bases l) (3 * ((l.len / 3).toNat - tl)) (3 * (l.len / 3).toNat) ∧
       optBases a ++ bases c ++ optBases b = (bases l).take (3 * (l.len / 3).toNat) := by
-  obtain ⟨a, c, b, hm, ha0, hb0, ha, hc, hb⟩ := prepeptide_sections l hwf ld tl h
+  obtain ⟨a, c, b, hm, ha0, hb0, ha, hc, hb, _⟩ := prepeptide_sections l hwf ld tl h
   have hpos := len_nonneg l hwf
   refine ⟨a, c, b, hm, ha0, hb0, ha, hc, hb, ?_⟩
   rw [ha, hc, hb, sliceL_append _ _ _ _ (by omega) (by omega), sliceL_append _ _ _ _ (by omega) (by omega),
@@ -111,6 +112,44 @@ theorem frameshift_refused (l : Loc) (hwf : geneWF l = true) (c : Int) (hg : fra
     frameshift l c false = .valueError ∨ frameshift l c false = .assertion :=
   frameshift_fails l hwf c hg
 
+
+/-- THE WRITE-OUT / RE-READ CYCLE, repaired code (fix D107, `_combine_sections`): a prepeptide written with
+    `to_biopython` and rebuilt by `Prepeptide.from_biopython` from its core feature gets a location `r` that lists
+    exactly the gene's translated bases `bases l [0 : 3⌊len/3⌋]` in transcription order and is again a
+    well-formed gene — for every gene shape (several exons, reverse strand, origin-spanning, overlapping exons) —
+    and positioning leader/core/tail AGAIN from the rebuilt prepeptide gives the same slices of the ORIGINAL
+    gene.  The only refusal is the constructor's (two exons of `r` ending at the same coordinate). -/
+theorem prepeptide_rebuild_repaired (l : Loc) (hwf : geneWF l = true) (ld tl : Nat) (h : (ld : Int) + tl < l.len / 3) :
+    ∃ r, bases r = (bases l).take (3 * (l.len / 3).toNat) ∧ geneWF r = true ∧
+      prepeptideRebuild true l ld tl = (if containsOverlappingExons r then .valueError else .ok r) ∧
+      ∃ a c b, prepeptideSections r ld tl = .ok (a, c, b) ∧
+        (a = none ↔ ld = 0) ∧ (b = none ↔ tl = 0) ∧
+        optBases a = sliceL (bases l) 0 (3 * ld) ∧
+        bases c = sliceL (bases l) (3 * ld) (3 * ((l.len / 3).toNat - tl)) ∧
+        optBases b = sliceL (bases l) (3 * ((l.len / 3).toNat - tl)) (3 * (l.len / 3).toNat) :=
+  rebuild_cycle true l hwf ld tl h
+    (fun secs hne hok _ => by simpa [rebuildLocation] using combineSections_ok l.strand secs hne hok)
+    (fun hf => by cases hf)
+
+/-- the same for the UNREPAIRED code (`build_location_from_others`), which is only right when each of its merges
+    joins parts that really adjoin.  Full statement (false, see the witness below):
+      `∀ l ld tl, geneWF l → ld + tl < len/3 → <conclusion of prepeptide_rebuild_repaired with `false`>`.
+    Missing part = the hypothesis `rebuildSound l ld tl` (class predicate of KF-C09-prepeptide-false-merge: it
+    fails only for genes whose exons are not listed in coordinate order). -/
+theorem prepeptide_rebuild_unrepaired_partial (l : Loc) (hwf : geneWF l = true) (ld tl : Nat)
+    (h : (ld : Int) + tl < l.len / 3) (hs : rebuildSound l ld tl = true) :
+    ∃ r, bases r = (bases l).take (3 * (l.len / 3).toNat) ∧ geneWF r = true ∧
+      prepeptideRebuild false l ld tl = (if containsOverlappingExons r then .valueError else .ok r) ∧
+      ∃ a c b, prepeptideSections r ld tl = .ok (a, c, b) ∧
+        (a = none ↔ ld = 0) ∧ (b = none ↔ tl = 0) ∧
+        optBases a = sliceL (bases l) 0 (3 * ld) ∧
+        bases c = sliceL (bases l) (3 * ld) (3 * ((l.len / 3).toNat - tl)) ∧
+        optBases b = sliceL (bases l) (3 * ((l.len / 3).toNat - tl)) (3 * (l.len / 3).toNat) :=
+  rebuild_cycle false l hwf ld tl h
+    (fun secs hne hok hsnd => by
+      simpa [rebuildLocation] using rebuildUnrepaired_ok l.strand secs hne hok (hsnd rfl))
+    (fun _ x hx => by simpa [rebuildSound, hx] using hs)
+
 /-! ### non-vacuity and witnesses (all decided by the kernel on the model) -/
 
 /-- D8 witnesses, now repaired: the origin-spanning forward gene join{[90:102),[0:21)} and its reverse twin -/
@@ -148,5 +187,23 @@ example : frameshift d8Fwd 4 false = .valueError ∧ frameshift (.simple ⟨5, 6
 /-- prepeptide on the origin-spanning gene: leader 3, tail 2 of 11 residues -/
 example : prepeptideSections d8Fwd 3 2 = .ok (some (.simple ⟨90, 99, .fwd⟩),
     .compound [⟨99, 102, .fwd⟩, ⟨0, 15, .fwd⟩], some (.simple ⟨15, 21, .fwd⟩)) := by decide
+
+/-- the seeded change's shape, on the repaired model: a reverse two-exon gene and the reverse origin-spanning gene
+    come back as themselves (leader 2 / tail 2, leader 3 / tail 2) -/
+example : prepeptideRebuild true (.compound [⟨50, 60, .rev⟩, ⟨30, 41, .rev⟩]) 2 2
+    = .ok (.compound [⟨50, 60, .rev⟩, ⟨30, 41, .rev⟩]) := by decide
+example : prepeptideRebuild true d8Rev 3 2 = .ok d8Rev := by decide
+example : prepeptideRebuild true (.simple ⟨30, 60, .rev⟩) 3 3 = .ok (.simple ⟨30, 60, .rev⟩) := by decide
+/-- unrepaired code on the same genes: same bases, more parts (C10's KF-C10-reverse-prepeptide-location) -/
+example : prepeptideRebuild false (.simple ⟨30, 60, .rev⟩) 3 3
+    = .ok (.compound [⟨51, 60, .rev⟩, ⟨39, 51, .rev⟩, ⟨30, 39, .rev⟩]) := by decide
+example : rebuildSound d8Rev 3 2 = true ∧ rebuildSound (.compound [⟨50, 60, .rev⟩, ⟨30, 41, .rev⟩]) 2 2 = true := by decide
+/-- negation witness of the full unrepaired statement (KF-C09-prepeptide-false-merge): exons not in coordinate
+    order; the hypothesis fails and the rebuilt location has 31 bases instead of the gene's 15 -/
+def kfShuffled : Loc := .compound [⟨16, 22, .rev⟩, ⟨0, 6, .rev⟩, ⟨22, 25, .rev⟩]
+example : geneWF kfShuffled = true ∧ rebuildSound kfShuffled 1 1 = false := by decide
+example : prepeptideRebuild false kfShuffled 1 1
+    = .ok (.compound [⟨19, 22, .rev⟩, ⟨16, 19, .rev⟩, ⟨0, 25, .rev⟩]) := by decide
+example : prepeptideRebuild true kfShuffled 1 1 = .ok kfShuffled := by decide
 
 end ASV.C09
